@@ -77,6 +77,23 @@ def eval_call(V, node, st):
         r = quantified(V, f.id, node.args[0], st)
         if r is not None:
             return r
+    if isinstance(f, ast.Name) and f.id == 'str' and 'str' not in st.env and len(node.args) == 1 \
+            and isinstance(node.args[0], ast.BoolOp) and isinstance(node.args[0].op, ast.Or) \
+            and len(node.args[0].values) == 2 and not node.keywords:
+        # str(a or b) == str(a) if a else str(b): the operands may be of different types (Path or '')
+        a = V.ev(node.args[0].values[0], st)
+        ca = simp(truthy(a))
+        from . import builtins_model
+        sub = st.fork()
+        sub.assume(ca)
+        sa = builtins_model.b_str(V, sub, [V.nn(sub, a, node)], {}, node) if not z3.is_false(ca) else None
+        sub2 = st.fork()
+        sub2.assume(z3.Not(ca))
+        b = V.ev(node.args[0].values[1], sub2)
+        sb = builtins_model.b_str(V, sub2, [b], {}, node)
+        if sa is None:
+            return sb
+        return SV(STR, z3.If(ca, sa.z, sb.z))
     if isinstance(f, ast.Name) and f.id == 'old' and V.spec_mode:
         if not V.old_stack:
             raise Unsupported('old() outside a postcondition')
@@ -615,7 +632,7 @@ def delete_subscript(V, t, st, node):
         k = pack(idx, base.t.k)
         V.may_raise(st, z3.Select(srt.dom(base.z), k), 'KeyError', 'del of missing key', node)
         new = srt.mk(z3.Store(srt.dom(base.z), k, False), srt.vals(base.z))
-        V.bind_target(t.value, SV(base.t, new), st, node)
+        V.bind_target(t.value, SV(base.t, new), st, node, mutation=True)
         return
     raise Unsupported('del subscript on %r' % (base,))
 
